@@ -33,9 +33,12 @@ def rowOfJ (j : Json) : Except String Row := do
          expression := getStrD j "expression" [], flowName := getStrD j "flow_name" [],
          dests := dests, resultKey := optStr j "result_key", nodeOk := getBoolD j "node_ok" true }
 
-def eventOfJ (j : Json) : Except String Event := do
+partial def eventOfJ (j : Json) : Except String Event := do
   let k ← getStr j "ev"
   if k = "row".toList then pure (.row (← rowOfJ (← j.getObjVal? "row")))
+  else if k = "insert".toList then do
+    let body ← (← getArr j "events").toList.mapM eventOfJ
+    pure (.insert (← rowOfJ (← j.getObjVal? "row")) body)
   else if k = "open".toList then pure (.openGroup (← edgesOfJ j "edges") (getBoolD j "starting" false))
   else if k = "close".toList then pure (.closeGroup (getStrD j "row_id" []))
   else throw "event kind"
